@@ -150,16 +150,27 @@ def whole_entry(P, R):
         R.ob('C18.GRD.2', okb, s, 'a destination is attached for a severity only if the entry\'s set contains it', key='attach-sev')
     p = P.need_fn('log_parse_type_sevset')
     # failures return non-zero: no '.', unknown severity
-    resv = None
     rets = [s for s in p.sites() if s.ev['k'] == 'ret']
-    if rets and is_var(rets[0].ev.get('val')):
-        resv = rets[0].ev['val']['name']
-    fails = [s for s in p.stores() if s.ev['k'] == 'store' and is_var(s.ev.get('lhs'), resv) and const_of(s.ev.get('rhs')) not in (None, 0)]
-    zero = [s for s in p.stores() if s.ev['k'] == 'store' and is_var(s.ev.get('lhs'), resv) and const_of(s.ev.get('rhs')) == 0]
-    R.ob('C18.GRD.2', len(fails) >= 2 and len(zero) == 1, fails[0] if fails else p, 'the entry-name parser reports failure for a missing dot and for an unknown severity name (%d failure sites)' % len(fails), key='parser-failures')
+    # the result: constants returned directly, or stored into a variable that flows into the returned one
+    fam = {s.ev['val']['name'] for s in rets if is_var(s.ev.get('val'))}
+    grew = True
+    while grew:
+        grew = False
+        for t in p.stores():
+            if t.ev['k'] == 'store' and is_var(t.ev.get('lhs')) and t.ev['lhs']['name'] in fam and t.ev.get('op') == '=' and is_var(t.ev.get('rhs')) and t.ev['rhs']['name'] not in fam:
+                fam.add(t.ev['rhs']['name'])
+                grew = True
+    fails = [s for s in p.stores() if s.ev['k'] == 'store' and is_var(s.ev.get('lhs')) and s.ev['lhs']['name'] in fam and const_of(s.ev.get('rhs')) not in (None, 0)]
+    fails += [s for s in rets if const_of(s.ev.get('val')) not in (None, 0)]
+    zero = [s for s in p.stores() if s.ev['k'] == 'store' and is_var(s.ev.get('lhs')) and s.ev['lhs']['name'] in fam and const_of(s.ev.get('rhs')) == 0]
+    zero += [s for s in rets if const_of(s.ev.get('val')) == 0]
+    R.ob('C18.GRD.2', len(fails) >= 2 and len(zero) == 1, fails[0] if fails else p, 'the entry-name parser reports failure for a missing dot and for an unknown severity name (%d failure sites, %d success site)' % (len(fails), len(zero)), key='parser-failures')
     for s in fails:
+        if s.ev['k'] == 'ret':
+            R.ob('C18.GRD.2', True, s, 'a failure is returned at once', key='failure-sticks')
+            continue
         # after a failure nothing overwrites the result with 0
-        later = [z for z in zero if z.bid in p.reach([s.bid]) and not (z.bid == s.bid and z.idx < s.idx)]
+        later = [z for z in zero if z.ev['k'] == 'store' and z.ev['lhs']['name'] == s.ev['lhs']['name'] and z.bid in p.reach([s.bid]) and not (z.bid == s.bid and z.idx < s.idx)]
         R.ob('C18.GRD.2', not later, s, 'a failure result is not overwritten on the way out', key='failure-sticks')
     # unknown severity: the lookup loop ran to the end
     R.floor('C18.GRD.2', 5)
